@@ -207,3 +207,31 @@ def c08(run):
     run.exhaustive = False
     run.assumptions += [BOUNDED, STD_GUARD, "array_chunks is instantiated for N = 1..5 only",
                         "elements are u16 with distinct values; a yielded item is identified by its address window"]
+
+
+# ------------------------------------------------------------------------------------------- C07
+@check("C07", rule="behaviours = distinct (string, remaining window, forward/Rev) states of chars / char_indices "
+                    "with witness paths; plus one case per u32 value for the conversions (complete sweep of "
+                    "0..0x120000 in 256-value blocks); non-trivial = multi-byte character or scalar boundary")
+def c07(run):
+    q = run.tier == "quick"
+    out = vec("C07-Chars.ndjson")
+    if os.path.exists(out):
+        os.remove(out)
+    run.mc("MC_Chars", "Chars.quick.cfg" if q else "Chars.thorough.cfg", env={"OUT": out}, heap="8g", timeout=3000)
+    out2 = vec("C07-Chars-wide.ndjson")
+    if os.path.exists(out2):
+        os.remove(out2)
+    run.mc("MC_Chars", "Chars.wide.cfg", env={"OUT": out2}, heap="8g", timeout=3000)
+    run.sample_file(out)
+    run.replay([out, out2], "Chars state graphs")
+    run.record_and_validate("Chars", "Trace_Chars", "Trace_Chars.cfg", n_files=4 if q else 16,
+                            n_events=4000 if q else 15000)
+    # complete sweep of from_u32 / encode_utf8 / decode over every u32 in 0..0x120000 (4608 blocks of 256)
+    nblk = 288
+    run.record_and_validate("CharSweep", "Trace_CharSweep", "Trace_CharSweep.cfg", n_files=16, n_events=nblk,
+                            seed_list=[k * nblk for k in range(16)], heap="3g")
+    run.extra["complete_sweep"] = "every u32 in 0..0x120000 (1 179 648 values) + 5 boundary values up to u32::MAX"
+    run.exhaustive = True
+    run.assumptions += [STD_GUARD, "exhaustive=true refers to the char<->UTF-8/u32 conversions (complete sweep); the "
+                        "iterator state graphs are exhaustive within their string bounds only"]
